@@ -410,7 +410,7 @@ MANIFEST = {
         "Proof. The F-vector entries of formulate(parametrize=False) for n = 1, 2 (NonRelativisticPVector, RelativisticPVector with and "
         "without return_f_hat), the library's K and P parametrisations, the full formulate(n, n_R) results for n, n_R ∈ {1,2}, the "
         "Breit-Wigner functions and an occurrence table are re-translated from the working tree on every run (formulate is called with a "
-        "marker phase-space class, marker angular momentum and marker radius). Theorems re-checked by the kernel: (1−iK)F = P and "
+        "marker phase-space class, marker angular momentum and marker radius). 54 theorems re-checked by the kernel: (1−iK)F = P and "
         "(1−iK̂ρ)F̂ = P with K̂ = (√ρ*)⁻¹K(√ρ)⁻¹, F = √ρF̂ for the regenerated entries wherever the denominators of the symbolic inverse do "
         "not vanish, and unconditionally for real symmetric K and positive ρ (denominators are proved non-zero); formulate = vector "
         "expression ∘ (library's K, P parametrisations), hence the equation holds for formulate(n, n_R) with real parameters (relativistic: "
